@@ -32,6 +32,8 @@ def budget(tier):
 
 def _tree(rng):
     shape = rng.choice(["random", "random", "flat", "wide", "deep", "dirsonly", "empty", "dups"])
+    if rng.random() < 0.02:
+        shape = "wide256"
     if shape == "flat":
         t = world.gen_tree(rng, max_files=8, max_dirs=0, min_files=1)
     elif shape == "wide":
@@ -40,6 +42,11 @@ def _tree(rng):
         for i in range(n):
             nm = world.gen_name(rng, rng.choice(["plain", "uni", "space"])) + str(i)
             t[nm] = world.gen_bytes(rng) if rng.random() < 0.7 else None
+    elif shape == "wide256":
+        t = {"blk": None}
+        for i in range(rng.choice([256, 256, 512, 255, 257])):
+            t["blk/%04d" % i] = bytes([i % 256, i // 256])
+        t["other.bin"] = b"o"
     elif shape == "deep":
         t = {}
         p = ""
